@@ -39,6 +39,7 @@ func main() {
 	list := flag.Bool("list", false, "list harnesses and exit")
 	full := flag.Bool("full-models", false, "evaluate all UF applications in counterexample models")
 	budget := flag.Int("budget-s", 0, "wall-clock budget per harness in seconds (0 = none)")
+	pbudget := flag.Int("path-budget-s", 0, "wall-clock budget per path in seconds (0 = none)")
 	dpath := flag.String("path", "", "debug: run only this decision path (comma separated)")
 	flag.Parse()
 
@@ -56,7 +57,7 @@ func main() {
 	if err != nil {
 		fail(*out, err)
 	}
-	cfg := &sym.Config{MaxSteps: *steps, LoopBound: *loop, MaxDepth: 200, Bounds: map[string]int{}, Solvers: strings.Split(*solvers, ","), TimeoutMs: *timeout, FullModels: *full, BudgetS: *budget}
+	cfg := &sym.Config{MaxSteps: *steps, LoopBound: *loop, MaxDepth: 200, Bounds: map[string]int{}, Solvers: strings.Split(*solvers, ","), TimeoutMs: *timeout, FullModels: *full, BudgetS: *budget, PathBudgetS: *pbudget}
 	for _, kv := range strings.Split(*bounds, ",") {
 		if kv == "" {
 			continue
